@@ -61,6 +61,8 @@ class GenericListTransformer(Generic[T]):
         self._sample_dims = sample_dims
         self._feature_dims = feature_dims
         self._iter_kwargs = iter_kwargs
+        # Start from an empty list so that refitting does not keep transformers of a previous fit
+        self.transformers = []
 
         for i, x in enumerate(X):
             # Add transformer specific keyword arguments
